@@ -148,9 +148,9 @@ def fault_at(world, k, make_exc, who=None, when=None):
     def cb(w, label, info, a):
         if state["fired"] or (who is not None and a != who):
             return
+        if when is not None and not when(label, info):
+            return  # ineligible point: decided concretely BEFORE the solver is asked, so it costs no branch
         if w.step == k:
-            if when is not None and not when(label, info):
-                return
             state["fired"] = True
             state["label"] = label
             state["info"] = dict(info)
